@@ -40,19 +40,18 @@ def _role_anchors(w):
   """Methods the rules find by role rather than by name (the flushers and the methods that end in
   a flush): calls of these are what R4 looks for, so they are never inlined."""
   eng = w.repo.cls("engine.Engine")
-  names = {f.name for f in eng.methods.values() if _is_flusher(w, f)}
-  changed = True
-  while changed:
-    changed = False
-    for f in eng.methods.values():
-      if f.name in names:
-        continue
-      fn = w.fn_of(f)
-      ns = nodes_calling_E(fn, lambda c, nm, f_: nm is not None and nm.startswith("self.") and
-                           nm.split(".")[-1] in names)
-      if ns and fn.cfg.dominated_by(fn.cfg.exit.id, ns):
-        names.add(f.name)
-        changed = True
+  flushers = {f.name for f in eng.methods.values() if _is_flusher(w, f)}
+  names = set(flushers)
+  # one level only: a method that itself calls a flusher on every path (like _post_update); longer
+  # chains are followed by the rule through whatever remains after inlining
+  for f in eng.methods.values():
+    if f.name in names:
+      continue
+    fn = w.fn_of(f)
+    ns = nodes_calling_E(fn, lambda c, nm, f_: nm is not None and nm.startswith("self.") and
+                         nm.split(".")[-1] in flushers)
+    if ns and fn.cfg.dominated_by(fn.cfg.exit.id, ns):
+      names.add(f.name)
   return names
 
 
@@ -96,10 +95,10 @@ def r1_gateway(run, w):
     di = {m.id for (m, c2, nm) in calls_E(gw) if endswith(nm, "out_actions.direct.append")}
     ok_st = bool(st) and cfg.dominated_by(n.id, st)
     run.ob(R1, gw.qualname, "stored.append(%s) dominates apply_doc_action(%s)" % (var, var),
-           "the action applied is the action recorded", ok_st, fi=gw.fi, node=c)
+           "the action applied is the action recorded", ok_st, fi=gw.fi, node=c, missing=not st)
     run.ob(R1, gw.qualname, "direct.append(...) dominates apply_doc_action",
            "a direct flag is recorded for every applied action",
-           bool(di) and cfg.dominated_by(n.id, di), fi=gw.fi, node=c)
+           bool(di) and cfg.dominated_by(n.id, di), fi=gw.fi, node=c, missing=not di)
     # and nothing is recorded without being applied: stored.append is post-dominated by apply
     for s_ in st:
       run.ob(R1, gw.qualname, "stored.append post-dominated by apply_doc_action",
@@ -341,8 +340,13 @@ def r4_flush(run, w):
       if not kill:
         continue
       in_flusher = f.name in flushers
+      # a frame opener written in place: the statement sits where a `_pre_update()` call would --
+      # before every update loop of the function, and never after one without a flush in between
+      loops_ = {m.id for (m, c_, nm_) in calls_E(fn) if nm_ == "self._update_loop"}
+      opens_frame = bool(loops_) and all(cfg.dominated_by(l_, {n.id}) for l_ in loops_) and \
+          n.id not in cfg.reach_after(loops_, removed=fl)
       ok = in_flusher or (bool(fl) and cfg.dominated_by(n.id, fl)) or \
-          f.qualname == "engine.Engine._pre_update"
+          f.qualname == "engine.Engine._pre_update" or opens_frame
       run.ob(R4, f.qualname, short(s), "rebinding/clearing _changes_map happens in the flusher, "
              "after a flush, or in the frame opener _pre_update", ok, fi=f, node=s)
   # (d) frames are not opened while an update loop is running: the only frame opener reachable
@@ -421,7 +425,7 @@ def r5_flush_complete(run, w):
       not (cfg.reach_after(fl) & recalc)
   run.ob(R5, au.qualname, "flush_calc_changes() after the last _bring_all_up_to_date / auto-removes",
          "calc changes of the whole bundle are converted to stored actions before returning", ok,
-         fi=au.fi)
+         fi=au.fi, missing=not fl or not recalc)
 
 
 def r6_interpreter(run, w):
